@@ -252,8 +252,21 @@ def h2_case(cid, rng):
             gebv = Z @ np.asarray(gm.u_a, float) + np.asarray(gm.beta, float)
             g = (gebv + H @ ud) if which == "H2" else gebv
             c["dom"] = True
-        prot = G_E_Phenotyping(gm, nenv=1, nrep=1, var_env=0.0, var_rep=0.0, var_err=1.0)
+        # variance components as scalars, as separate arrays, or as ONE array object the caller uses for several components
+        form = rng.choice(["scalar", "scalar", "arrays", "shared", "shared-all"])
+        T_ = int(np.asarray(gm.beta).shape[1])
+        if form == "scalar":
+            kept = []; prot = G_E_Phenotyping(gm, nenv=1, nrep=1, var_env=0.0, var_rep=0.0, var_err=1.0)
+        else:
+            a_err = np.full(T_, float(rng.choice([0.5, 1.0, 2.0])))
+            a_env = a_err if form.startswith("shared") else np.full(T_, float(rng.choice([0.0, 0.25, 1.5])))
+            a_rep = a_err if form == "shared-all" else np.full(T_, float(rng.choice([0.0, 0.125])))
+            kept = [a_env, a_rep]
+            prot = G_E_Phenotyping(gm, nenv=1, nrep=1, var_env=a_env, var_rep=a_rep, var_err=a_err)
+        snap = lambda: [[int(round(float(x) * 8)) for x in np.asarray(v, dtype=float).ravel()] for v in [prot.var_env, prot.var_rep] + kept]
+        c["others"] = {"before": snap()}
         getattr(prot, "set_" + which)(hn / hd, pg)
+        c["others"]["after"] = snap(); c["form"] = form
         ok = [True]
         varA = np.asarray(g, dtype=float).var(0)      # variance of the breeding (h2) / genotypic (H2) values; equal without dominance
         c["varAnn"] = ints(varA * n * n, ok).tolist()
@@ -261,6 +274,7 @@ def h2_case(cid, rng):
     except Exception as ex:
         c["err"] = "%s: %s" % (type(ex).__name__, str(ex)[:160])
     c.setdefault("varAnn", [0] * T); c.setdefault("errq", [0] * T); c.setdefault("lat", False)
+    c.setdefault("others", {"before": [], "after": []}); c["others"].setdefault("after", c["others"]["before"])
     return c
 
 
